@@ -58,14 +58,64 @@ def reorg_calls(body):
     return out
 
 
-def lockstep(res, rule, body, start_blocks, direction, accept, what, fixed=None):
+def flag_sites(prog, body):
+    """[(bb, direction)] - places where the step writes Block.in_longest_chain: a direct assignment of a constant, or a call
+    of a workspace function that assigns the flag from one of its bool parameters (direction = the constant passed there)"""
+    from ..expr import Chaser
+    from ..fields import place_has_field
+    out = []
+    ch = Chaser(body)
+    for bb, blk in enumerate(body.blocks):
+        for st in blk["s"]:
+            if st[0] == "=" and place_has_field(st[1], "block::Block", "in_longest_chain") is not None:
+                e = ch.rvalue(st[2], 0)
+                out.append((bb, bool(e[1]) if e[0] == "const" and e[1] in (0, 1, True, False) else None))
+    for bb, t in body.calls():
+        callee = prog.bodies.get(t.get("res") or t.get("callee") or "")
+        if callee is None or callee.is_promoted:
+            continue
+        k = _flag_param(callee)
+        if k is not None and k - 1 < len(t["args"]):
+            out.append((bb, const_bool(t["args"][k - 1])))
+    return out
+
+
+_FLAG_PARAM = {}
+
+
+def _flag_param(callee):
+    """index of the bool parameter that `callee` stores into Block.in_longest_chain (None if it does not)"""
+    if callee.path in _FLAG_PARAM:
+        return _FLAG_PARAM[callee.path]
+    from ..expr import Chaser, strip
+    from ..fields import place_has_field
+    r = None
+    ch = None
+    for blk in callee.blocks:
+        for st in blk["s"]:
+            if st[0] == "=" and place_has_field(st[1], "block::Block", "in_longest_chain") is not None:
+                ch = ch or Chaser(callee)
+                e = strip(ch.rvalue(st[2], 0))
+                if e[0] == "param" and callee.ty(e[1])["s"] == "bool":
+                    r = e[1]
+    _FLAG_PARAM[callee.path] = r
+    return r
+
+
+def lockstep(res, rule, body, start_blocks, direction, accept, what, fixed=None, prog=None):
     calls = reorg_calls(body)
+    if prog is not None:
+        calls["flag"] = flag_sites(prog, body)
     for view, sites in calls.items():
         res.instance(rule)
         key = "C03.lockstep|%s|%s" % (body.path, view)
         name = body.path.split("::")[-2]
         if not sites:
-            res.add(Finding(rule, key + "|missing", "%s never calls %s::on_chain_reorganization: the %s view is not moved with the others" % (name, view, view), body.loc(0)))
+            if view == "flag":
+                res.add(Finding(rule, key + "|missing", "%s never writes Block.in_longest_chain (directly or through Block::on_chain_reorganization): the block's "
+                                "on-chain flag is not moved with the other views" % name, body.loc(0)))
+            else:
+                res.add(Finding(rule, key + "|missing", "%s never calls %s::on_chain_reorganization: the %s view is not moved with the others" % (name, view, view), body.loc(0)))
             continue
         bad_dir = [bb for bb, d in sites if d is not direction]
         if bad_dir:
@@ -117,7 +167,7 @@ def run(prog, tier, extra=None):
         return "return" if t["k"] == "return" else None
     for s in sites:
         lockstep(res, R1, wind, [s["start"]], True, wind_accept, "an exit after the block validated",
-                 fixed={"fixed_locals": {s["local"]: True}})
+                 fixed={"fixed_locals": {s["local"]: True}}, prog=prog)
         # and on the rejecting edge none of them runs (shared with C01)
         found, ex = gate.check_gate(wind, s, gate.make_accept(wind, effects=tuple(p.split("::", 4)[-1] for p in REORG.values())), prog.units)
         res.instance(R1)
@@ -131,7 +181,7 @@ def run(prog, tier, extra=None):
             if v in ("Wind", "Unwind") or v is None:
                 return "return-" + str(v)
         return None
-    lockstep(res, R1, unwind, [0], False, unwind_accept, "a Wind/Unwind continuation")
+    lockstep(res, R1, unwind, [0], False, unwind_accept, "a Wind/Unwind continuation", prog=prog)
 
     # R4: the block whose transactions are (un)wound is a full block: within the same step, the call of
     # Block::on_chain_reorganization is dominated by a call that reaches upgrade_block_to_block_type
